@@ -9,10 +9,17 @@
 //!   ops2 tlp.c  <ncols> <pred> <sizes> <table>   chunk structure of the filter p (positions)
 //!   ops2 sort   <ncols> <keys> <sizes> <table>   positions in output order (flat)
 //!   ops2 sort.c <ncols> <keys> <sizes> <table>   … with the output chunk structure
-//!   ops2 sort.m <ncols> <keys> <sizes> <table>   … as a sorted multiset (comparator not a preorder)
+//!   ops2 sort.m <p|n> <ncols> <keys> <sizes> <table>   … as a sorted multiset (more than 20 rows, comparator
+//!                                             not a preorder); p = `sort_by` was seen to panic on this input
 //!   ops2 count  <ncols> <col> <pred|-> <skip|-> <limit|-> <sizes> <table>
 //!                                             count(*),count(col) of Simple ; Hash aggregate ; rows,non-null of the pipeline
 //!   ops2 pipe.f <ncols> <stages> <sizes> <table> rows of the chain (flat) ; pipe.c with chunk structure
+//!
+//!   ops2 qtlp <ncols> <pred> <table>           the three WHERE queries through the Cypher front end (one
+//!                                             node per row, a NULL cell = a missing property)
+//!   ops2 qord <keys> <skip|-> <limit|-> <table>   MATCH … RETURN … ORDER BY … SKIP … LIMIT …
+//!   ops2 qord.m <p|n> <keys> <table>           … as a sorted multiset (p = seen to panic)
+//!   ops2 qcnt <ncols> <col> <pred|-> <table>   RETURN count(*), count(n.c<col>) against the number of rows
 //!
 //!   <table>  = r1;r2;…  (row = value tokens joined by `,`) | -
 //!   <sizes>  = c:<n1>,<n2>,… child chunk sizes (the rest of the rows forms one more chunk) | c:
@@ -436,6 +443,190 @@ fn run_pipe(chunked: bool, ncols: usize, stages: &str, sizes: &str, table: &str)
     }
 }
 
+// ---------------------------------------------------------------------------------------------
+// query level: the same predicates / sort keys through the Cypher front end and the planner
+// ---------------------------------------------------------------------------------------------
+
+fn lit_text(v: &Value) -> Option<String> {
+    Some(match v {
+        Value::Null => "null".into(),
+        Value::Bool(b) => if *b { "true".into() } else { "false".into() },
+        Value::Int64(i) if *i == i64::MIN => return None,
+        Value::Int64(i) if *i < 0 => format!("({})", i),
+        Value::Int64(i) => i.to_string(),
+        Value::Float64(f) if f.is_finite() => {
+            let t = format!("{:?}", f);
+            if t.contains('e') || t.contains("E") {
+                return None;
+            }
+            if *f < 0.0 || (*f == 0.0 && f.is_sign_negative()) { format!("({})", t) } else { t }
+        }
+        Value::String(s) if s.chars().all(|c| c.is_ascii_alphanumeric()) => format!("'{}'", s),
+        _ => return None,
+    })
+}
+
+/// Cypher text of a predicate of the grammar (`None`: something the text form cannot carry)
+fn expr_text(ts: &[&str], i: &mut usize, ncols: usize) -> Option<String> {
+    let t = ts[*i];
+    *i += 1;
+    let bin = |sym: &str, ts: &[&str], i: &mut usize| -> Option<String> {
+        let l = expr_text(ts, i, ncols)?;
+        let r = expr_text(ts, i, ncols)?;
+        Some(format!("({} {} {})", l, sym, r))
+    };
+    Some(match t {
+        "eq" => bin("=", ts, i)?,
+        "ne" => bin("<>", ts, i)?,
+        "lt" => bin("<", ts, i)?,
+        "le" => bin("<=", ts, i)?,
+        "gt" => bin(">", ts, i)?,
+        "ge" => bin(">=", ts, i)?,
+        "and" => bin("AND", ts, i)?,
+        "or" => bin("OR", ts, i)?,
+        "xor" => bin("XOR", ts, i)?,
+        "add" => bin("+", ts, i)?,
+        "sub" => bin("-", ts, i)?,
+        "mul" => bin("*", ts, i)?,
+        "div" => bin("/", ts, i)?,
+        "mod" => bin("%", ts, i)?,
+        "sw" => bin("STARTS WITH", ts, i)?,
+        "ew" => bin("ENDS WITH", ts, i)?,
+        "ct" => bin("CONTAINS", ts, i)?,
+        "not" => format!("(NOT {})", expr_text(ts, i, ncols)?),
+        "isn" => format!("({} IS NULL)", expr_text(ts, i, ncols)?),
+        "nn" => format!("({} IS NOT NULL)", expr_text(ts, i, ncols)?),
+        "neg" => format!("(-{})", expr_text(ts, i, ncols)?),
+        "m" => "n.unbound".into(),
+        _ => {
+            if let Some(k) = t.strip_prefix("in") {
+                let k: usize = k.parse().ok()?;
+                let l = expr_text(ts, i, ncols)?;
+                let mut items = Vec::new();
+                for _ in 0..k {
+                    items.push(expr_text(ts, i, ncols)?);
+                }
+                format!("({} IN [{}])", l, items.join(", "))
+            } else if let Some(v) = t.strip_prefix('l') {
+                lit_text(&untok(v))?
+            } else if let Some(k) = t.strip_prefix('c') {
+                let k: usize = k.parse().ok()?;
+                if k < ncols { format!("n.c{}", k) } else { "n.unbound".into() }
+            } else {
+                return None;
+            }
+        }
+    })
+}
+
+fn pred_text(pred: &str, ncols: usize) -> Option<String> {
+    let ts: Vec<&str> = pred.split(',').collect();
+    let mut i = 0;
+    let t = expr_text(&ts, &mut i, ncols)?;
+    if i == ts.len() { Some(t) } else { None }
+}
+
+fn make_db(rows: &[Row]) -> grafeo_engine::database::GrafeoDB {
+    let db = grafeo_engine::database::GrafeoDB::new_in_memory();
+    for (i, r) in rows.iter().enumerate() {
+        let id = db.create_node(&["T"]);
+        db.set_node_property(id, "pos", Value::Int64(i as i64));
+        for (k, v) in r.iter().enumerate() {
+            // a NULL cell is a property the node does not have
+            if !matches!(v, Value::Null) {
+                db.set_node_property(id, &format!("c{}", k), v.clone());
+            }
+        }
+    }
+    db
+}
+
+fn query_positions(db: &grafeo_engine::database::GrafeoDB, text: &str, sorted: bool) -> String {
+    let s = db.session();
+    match s.execute_cypher(text) {
+        Ok(r) => {
+            let mut v: Vec<i64> = r
+                .rows
+                .iter()
+                .map(|row| match row.first() {
+                    Some(Value::Int64(i)) => *i,
+                    _ => -1,
+                })
+                .collect();
+            if sorted {
+                v.sort();
+            }
+            if v.is_empty() { "-".into() } else { v.iter().map(|x| x.to_string()).collect::<Vec<_>>().join(",") }
+        }
+        Err(_) => "err".into(),
+    }
+}
+
+fn run_qtlp(ncols: usize, pred: &str, table: &str) -> String {
+    let rows = parse_table(table);
+    let Some(p) = pred_text(pred, ncols) else { return "no-text".into() };
+    let db = make_db(&rows);
+    let q = |w: String| guarded(|| query_positions(&db, &format!("MATCH (n:T) WHERE {} RETURN n.pos", w), true));
+    format!("{}/{}/{}", q(p.clone()), q(format!("NOT {}", p)), q(format!("{} IS NULL", p)))
+}
+
+fn keys_text(keys: &str) -> String {
+    keys.split(',')
+        .map(|k| {
+            let n = k.len();
+            format!("n.c{}{}", &k[..n - 2], if &k[n - 2..n - 1] == "a" { "" } else { " DESC" })
+        })
+        .collect::<Vec<_>>()
+        .join(", ")
+}
+
+fn run_qord(keys: &str, skip: &str, limit: &str, table: &str) -> String {
+    let rows = parse_table(table);
+    let db = make_db(&rows);
+    // the ORDER BY expressions have to be among the returned items in this front end
+    let cols: Vec<String> = keys.split(',').map(|k| format!("n.c{}", &k[..k.len() - 2])).collect();
+    let mut text = format!("MATCH (n:T) RETURN n.pos, {} ORDER BY {}", cols.join(", "), keys_text(keys));
+    if skip != "-" {
+        text += &format!(" SKIP {}", skip);
+    }
+    if limit != "-" {
+        text += &format!(" LIMIT {}", limit);
+    }
+    guarded(|| query_positions(&db, &text, false))
+}
+
+fn run_qcnt(ncols: usize, col: usize, pred: &str, table: &str) -> String {
+    let rows = parse_table(table);
+    let db = make_db(&rows);
+    let w = if pred == "-" {
+        String::new()
+    } else {
+        match pred_text(pred, ncols) {
+            Some(p) => format!(" WHERE {}", p),
+            None => return "no-text".into(),
+        }
+    };
+    let s = db.session();
+    let one = |text: String| -> String {
+        guarded(|| match s.execute_cypher(&text) {
+            Ok(r) => {
+                if r.rows.is_empty() {
+                    "-".into()
+                } else {
+                    r.rows.iter().map(show_row).collect::<Vec<_>>().join(";")
+                }
+            }
+            Err(_) => "err".into(),
+        })
+    };
+    let c = one(format!("MATCH (n:T){} RETURN count(*), count(n.c{})", w, col));
+    let n = guarded(|| query_positions(&db, &format!("MATCH (n:T){} RETURN n.pos", w), true));
+    let nn = guarded(|| query_positions(&db, &format!("MATCH (n:T){} RETURN n.c{}", w, col), false));
+    let _ = nn;
+    let rows_n = if n == "-" { 0 } else { n.split(',').count() };
+    format!("{}/I{}", c, rows_n)
+}
+
 pub fn run(args: &[&str]) -> String {
     let a = args.to_vec();
     guarded(move || match a.as_slice() {
@@ -443,10 +634,23 @@ pub fn run(args: &[&str]) -> String {
         ["tlp.c", n, p, s, t] => run_tlp(true, n.parse().unwrap(), p, s, t),
         ["sort", n, k, s, t] => run_sort("f", n.parse().unwrap(), k, s, t),
         ["sort.c", n, k, s, t] => run_sort("c", n.parse().unwrap(), k, s, t),
-        ["sort.m", n, k, s, t] => run_sort("m", n.parse().unwrap(), k, s, t),
+        ["sort.m", _hint, n, k, s, t] => run_sort("m", n.parse().unwrap(), k, s, t),
         ["count", n, c, p, sk, li, s, t] => run_count(n.parse().unwrap(), c.parse().unwrap(), p, sk, li, s, t),
         ["pipe.f", n, st, s, t] => run_pipe(false, n.parse().unwrap(), st, s, t),
         ["pipe.c", n, st, s, t] => run_pipe(true, n.parse().unwrap(), st, s, t),
+        ["qtlp", n, p, t] => run_qtlp(n.parse().unwrap(), p, t),
+        ["qord", k, sk, li, t] => run_qord(k, sk, li, t),
+        ["qord.m", _hint, k, t] => {
+            let r = run_qord(k, "-", "-", t);
+            if r == "panic" || r == "err" || r == "-" {
+                r
+            } else {
+                let mut v: Vec<i64> = r.split(',').map(|x| x.parse().unwrap_or(-1)).collect();
+                v.sort();
+                v.iter().map(|x| x.to_string()).collect::<Vec<_>>().join(",")
+            }
+        }
+        ["qcnt", n, c, p, t] => run_qcnt(n.parse().unwrap(), c.parse().unwrap(), p, t),
         _ => "bad-op".into(),
     })
 }
@@ -588,6 +792,8 @@ fn gen_table(r: &mut Rng) -> Table {
         1 => 1,
         2 => *r.pick(&[2047usize, 2048, 2049]),
         3 => *r.pick(&[2047usize, 2048, 2049, 4095, 4096, 4097]),
+        // just above the size up to which `sort_by` is an insertion sort
+        4 | 5 => r.range(19, 70) as usize,
         _ => r.range(2, 12) as usize,
     };
     let rows = (0..n).map(|_| domains.iter().map(|d| r.pick(d).clone()).collect()).collect();
@@ -712,9 +918,82 @@ fn gen_pred(r: &mut Rng, t: &Table, d: u32, out: &mut Vec<String>) {
     }
 }
 
+/// doubles of every shape: the palette, arbitrary bit patterns, moderate magnitudes with random
+/// mantissas, subnormals, values next to the overflow threshold
+fn rand_f64(r: &mut Rng) -> f64 {
+    match r.below(7) {
+        0 => match pal_flt(r) {
+            Value::Float64(f) => f,
+            _ => 0.0,
+        },
+        1 => f64::from_bits(r.next()),
+        2 => (r.below(20) as f64) - 5.0,
+        3 => f64::from_bits((1018 + r.below(12)) << 52 | (r.next() >> 12) | (r.below(2) << 63)),
+        4 => f64::from_bits(r.below(1 << 54) | (r.below(2) << 63)),
+        5 => f64::from_bits((2040 + r.below(7)) << 52 | (r.next() >> 12) | (r.below(2) << 63)),
+        _ => f64::from_bits((r.below(2047)) << 52 | (r.below(4) << 50) | (r.below(2) << 63)),
+    }
+}
+
+/// one `tlp` line that pins the rounding of float arithmetic: `x <op> y` is compared (with the
+/// exact comparisons `< <= > >=`, and `=`) against the result the hardware gives on the first row
+/// and against its two neighbours
+fn gen_arith_probe(r: &mut Rng, out: &mut Vec<String>) {
+    let n = r.range(1, 4) as usize;
+    let num = |r: &mut Rng| -> Value {
+        if r.chance(1, 5) {
+            if r.chance(1, 2) { pal_int_edge(r) } else { pal_int_small(r) }
+        } else {
+            Value::Float64(rand_f64(r))
+        }
+    };
+    let rows: Vec<Row> = (0..n).map(|_| vec![num(r), num(r)]).collect();
+    let f = |v: &Value| match v {
+        Value::Int64(i) => *i as f64,
+        Value::Float64(f) => *f,
+        _ => 0.0,
+    };
+    let op = *r.pick(&["add", "sub", "mul", "div", "mod"]);
+    let (x, y) = (f(&rows[0][0]), f(&rows[0][1]));
+    let res = match op {
+        "add" => x + y,
+        "sub" => x - y,
+        "mul" => x * y,
+        "div" => x / y,
+        _ => x % y,
+    };
+    let probe = match r.below(4) {
+        0 => res.next_up(),
+        1 => res.next_down(),
+        _ => res,
+    };
+    let cmp = *r.pick(&["lt", "le", "gt", "ge", "eq", "ne"]);
+    out.push(format!(
+        "ops2 tlp 2 {},{},c0,c1,l{} {} {}",
+        cmp,
+        op,
+        tok(&Value::Float64(probe)),
+        gen_sizes(r, n),
+        show_table(&rows)
+    ));
+}
+
+/// a predicate that lets a good part of the table through: one column against one of its own values
+fn simple_pred(r: &mut Rng, t: &Table) -> String {
+    let c = r.below(t.ncols as u64) as usize;
+    match r.below(4) {
+        0 => format!("nn,c{}", c),
+        1 => format!("not,isn,c{}", c),
+        _ => format!("{},c{},l{}", r.pick(&["le", "ge", "ne", "le", "ge", "lt", "gt"]), c, tok(r.pick(&t.domains[c]))),
+    }
+}
+
 fn pred_string(r: &mut Rng, t: &Table) -> String {
+    if r.chance(1, 4) {
+        return simple_pred(r, t);
+    }
     let mut v = Vec::new();
-    let d = r.below(4) as u32;
+    let d = r.below(5) as u32;
     gen_pred(r, t, d, &mut v);
     v.join(",")
 }
@@ -801,19 +1080,43 @@ pub fn generate(seed: u64, cases: usize, out: &mut Vec<String>) {
         out.push(format!("ops2 tlp {} {} {} {}", nc, p1, gen_sizes(&mut r, n), table));
         out.push(format!("ops2 tlp {} {} {} {}", nc, p2, gen_sizes(&mut r, n), table));
         out.push(format!("ops2 tlp.c {} {} {} {}", nc, p1, gen_sizes(&mut r, n), table));
+        if r.chance(1, 2) {
+            gen_arith_probe(&mut r, out);
+        }
         // sort: the same rows under two chunkings, the output chunk structure, and columns of mixed kinds
         let keys = gen_keys(&mut r, &safe);
         out.push(format!("ops2 sort {} {} {} {}", nc, keys, gen_sizes(&mut r, n), table));
         out.push(format!("ops2 sort {} {} {} {}", nc, keys, gen_sizes(&mut r, n), table));
         out.push(format!("ops2 sort.c {} {} {} {}", nc, keys, gen_sizes(&mut r, n), table));
-        out.push(format!("ops2 sort.m {} {} {} {}", nc, gen_keys(&mut r, &all), gen_sizes(&mut r, n), table));
+        // columns of mixed kinds: up to 20 rows `sort_by` is an insertion sort (the order is
+        // determined even where the comparator is not a preorder), beyond that only the multiset is
+        if n <= 20 {
+            out.push(format!("ops2 sort {} {} {} {}", nc, gen_keys(&mut r, &all), gen_sizes(&mut r, n), table));
+        } else {
+            // whether `sort_by` notices the inconsistency and panics depends on the run structure
+            // it happens to find; the line records what this tree does (the model accepts a panic
+            // only where the comparator is not a preorder)
+            let keys = gen_keys(&mut r, &all);
+            let sizes = gen_sizes(&mut r, n);
+            let hint = if guarded(|| run_sort("m", nc, &keys, &sizes, &table)) == "panic" { "p" } else { "n" };
+            out.push(format!("ops2 sort.m {} {} {} {} {}", hint, nc, keys, sizes, table));
+        }
+        let safe = if n <= 20 && r.chance(1, 2) { all.clone() } else { safe };
         // count
         for _ in 0..2 {
             let extra = r.chance(1, 10) as u64;
             let col = r.below(nc as u64 + extra);
-            let p = if r.chance(2, 3) { pred_string(&mut r, &t) } else { "-".into() };
-            let sk = if r.chance(1, 2) { pick_n(&mut r, n).to_string() } else { "-".into() };
-            let li = if r.chance(1, 2) { pick_n(&mut r, n).to_string() } else { "-".into() };
+            let p = match r.below(4) {
+                0 => pred_string(&mut r, &t),
+                1 => simple_pred(&mut r, &t),
+                _ => "-".into(),
+            };
+            let sk = if r.chance(1, 3) {
+                (if r.chance(1, 6) { pick_n(&mut r, n) } else { r.below(n as u64 / 2 + 1) as usize }).to_string()
+            } else {
+                "-".into()
+            };
+            let li = if r.chance(1, 3) { (1 + pick_n(&mut r, n)).to_string() } else { "-".into() };
             out.push(format!("ops2 count {} {} {} {} {} {} {}", nc, col, p, sk, li, gen_sizes(&mut r, n), table));
         }
         // chains
@@ -822,5 +1125,31 @@ pub fn generate(seed: u64, cases: usize, out: &mut Vec<String>) {
         out.push(format!("ops2 pipe.c {} {} {} {}", nc, st, gen_sizes(&mut r, n), table));
         let st2 = gen_stages(&mut r, &t, &safe);
         out.push(format!("ops2 pipe.f {} {} {} {}", nc, st2, gen_sizes(&mut r, n), table));
+        // the same through the Cypher front end and the planner: nodes with properties c0, c1, …
+        if n <= 70 && r.chance(2, 3) {
+            for p in [&p1, &p2] {
+                if pred_text(p, nc).is_some() {
+                    out.push(format!("ops2 qtlp {} {} {}", nc, p, table));
+                }
+            }
+            let keys = gen_keys(&mut r, &safe);
+            if keys != "-" {
+                let sk = if r.chance(1, 3) { r.below(n as u64 + 2).to_string() } else { "-".into() };
+                let li = if r.chance(1, 3) { r.below(n as u64 + 2).to_string() } else { "-".into() };
+                out.push(format!("ops2 qord {} {} {} {}", keys, sk, li, table));
+            }
+            if n > 20 {
+                let keys = gen_keys(&mut r, &all);
+                if keys != "-" {
+                    let hint = if guarded(|| run_qord(&keys, "-", "-", &table)) == "panic" { "p" } else { "n" };
+                    out.push(format!("ops2 qord.m {} {} {}", hint, keys, table));
+                }
+            }
+            let col = r.below(nc as u64);
+            let p = if r.chance(1, 2) { simple_pred(&mut r, &t) } else { "-".into() };
+            if p == "-" || pred_text(&p, nc).is_some() {
+                out.push(format!("ops2 qcnt {} {} {} {}", nc, col, p, table));
+            }
+        }
     }
 }
